@@ -8,6 +8,67 @@ RAN = ("tools/seed_eval.sh in a fresh scratch worktree: patch applies; repositor
        "and passes without it; ./check <property> against the patched tree")
 T5 = {
  # name: (property, needs, detected_by, first_pass, added)
+ "agent5-C01-input-path-not-normalised": ("C01",
+   "a code with a canonically decomposable character typed through input_code() in NFD while the peer uses the NFC spelling",
+   "C01 code-pairs (flow input) and sched-nfc-nfd: same-code-agree (missing verifier / versions)", "reported", ""),
+ "agent5-C02-processed-bounded-deque": ("C02",
+   "at least 32 further peer phases accepted after the peer's version, then an exact replay of that version message (any re-open of the mailbox replays it)",
+   "C02 long-session-replay: authentic-versions (versions delivered twice after 32+2 messages)",
+   "missed (sessions carried at most three messages, so nothing ever left a 32-entry window)",
+   "long-session replay enumeration: honest sessions of N peer messages (N up to 130, thorough 300, around 16/32/64/128/256), then every stored message replayed exactly, one at a time"),
+ "agent5-C03-flush-all-parked-phases": ("C03",
+   "three or more messages one way, a phase two ahead of the cursor arriving first, then the cursor phase, while one in between is still missing (arrival 2,0,1)",
+   "C03 bfs-0+3-fineA-reorder2 / bfs-0+4 / bfs-0+5: prefix (received [p0, p2])",
+   "missed (quick scenarios had at most two messages one way under reordering)",
+   "complete BFS of 3 / 4 / 5 messages one way with every stored message allowed to overtake the ones queued before it"),
+ "agent5-C04-sparse-nul-records": ("C04", "a file whose last 16384-byte transit record is all NUL bytes",
+   "C04 honest-transfers: byte-exact (file of size 1 = one NUL byte; cfile data+nul-byte, nul-record, ...)", "reported",
+   "(found through the 1-byte file, which happens to be a NUL; a content alphabet - NUL runs across record boundaries, holes, 0xff, CRLF, archive magic - was added anyway)"),
+ "agent5-C05-zip-dir-entries-unchecked": ("C05", "a directory offer whose zip has a directory entry with '..' components or an absolute name",
+   "C05 receive-destinations (zip member lists): writes-elsewhere", "reported", ""),
+ "agent5-C06-hung-up-at-connection-lost": ("C06",
+   "a ciphertext flip, then further records handed over after loseConnection() and before connectionLost (a transport that lingers)",
+   "C06 stream-manipulations (chunking split-linger): no-altered-record / reads-fail",
+   "missed (every transport stopped delivering at loseConnection or at the exception)",
+   "chunking split-linger: the frames after the manipulated one are delivered one by one after the connection was told to close"),
+ "agent5-C07-check-and-remove-skips-leftover": ("C07",
+   "one segment holding a complete correct handshake token followed by a wrong next token: 'ok' + a handshake under another key from a relay server",
+   "C07 stranger-relay-vs-direct-{S,R}-dev, stranger-relay-only-*: key-holders-only (sender/receiver-selected-stranger)",
+   "missed (strangers spoke only on direct connections; the relay was always honest)",
+   "relay servers without the transit key (relay-hint-for-S/R): 'ok' followed by each stranger script, in one segment or cut at the line end, alone and racing the honest path"),
+ "agent5-C09-echo-retires-prefix": ("C09",
+   "two drops: after the first reconnect the replay of the client's own old messages reaches it before its re-submitted add reaches the server, then the second drop loses that add",
+   "C09 set-set-dev2-drops2 / set-set-close0-drops2-dev3: eventually-complete (verifier / versions / msgs never arrive)", "reported", ""),
+ "agent5-C10-closed-subchannel-purges-queue": ("C10",
+   "a close from one side, the peer's answering CLOSE un-acked when the connection is lost, then the replacement connection",
+   "C10 one-way-lose2-eitherend-dev ...: delivered-eventually/close", "reported", ""),
+ "agent5-C11-framer-single-newline": ("C11", "a segment boundary exactly between the two trailing newlines of the inbound prologue",
+   "C11 initial-*-edges-dev, reconverge-lose1-edges-dev: converge (deadlock CONNECTING/CONNECTING)",
+   "missed (C11 delivered handshake bytes whole or per frame; byte-level cuts of the prologue were explored in C12 only, whose check does report this change)",
+   "chunking frames+edges: a segment boundary one byte into and one byte before the end of every wire unit"),
+ "agent5-C12-framer-consumed-offset": ("C12", "one read holding a complete frame followed by the beginning of the next frame, cut near that frame's end",
+   "C12 l2-chunking (path-merged fragmentations): after-N", "reported", ""),
+ "agent5-C13-closed-ignores-write": ("C13", "a write on a subchannel after the two-sided close has completed",
+   "C13 *: write-after-close", "reported", ""),
+ "agent5-C14-disconnected-forgets-ws": ("C14",
+   "an API call that transmits while the server's WebSocket closing handshake is in progress, then the loss and the reconnection",
+   "C14 solo-*-wsclosing, pair-*-wsclosing-dev2: internal-failure (NoTransition@ws_open, AssertionError@_tx); also C09 *-wsclosing-drop1-dev3: session-died",
+   "missed (the closing-handshake window existed only in one C03 scenario)",
+   "wsclosing event in C14 (three solo flows, two pair searches) and in C09 (three flows)"),
+ "agent5-C15-resume-reentrancy-guard": ("C15",
+   "inside one producer's turn the transport signals pauseProducing() and then, in the same turn, resumeProducing()",
+   "C15 push-pause-resume-inside-turn, push-pull-pause-resume-inside-turn: all-resumed/push",
+   "missed (only a pause could arrive inside a turn)",
+   "armpr event: the next write fills and drains the transport's buffer, pause and resume both arrive inside that write"),
+ "agent5-C16-max-unanswered-pings": ("C16", "the generation after a connection replaced for silence, or the third generation after two plain losses",
+   "C16 responsive-lose1-I1 / blackhole-I1-dev: never-drop-responsive, monitor-lifecycle", "reported",
+   "(a three-generation scenario, responsive-lose2-I1-dev, was added anyway)"),
+ "agent5-C19-completions-lowercased-prefix": ("C19", "a typed prefix containing an upper-case letter during interactive word completion",
+   "C19 input-word-completions: completions/input-extends",
+   "missed (completions were enumerated on PGPWordList directly; the helper sequences used lower-case prefixes only)",
+   "Input.get_word_completions on the real wordlist for ~4k prefixes in six letter-case variants against a case-sensitive reference"),
+ "agent5-C20-bare-address-index": ("C20", "a hint whose hostname is the empty string",
+   "C20 hint-lists: hint-aborted / hint-raises IndexError (transit and dilation)", "reported", ""),
 }
 if __name__ == "__main__":
     for name, (prop, needs, det, fp, added) in T5.items():
